@@ -319,6 +319,8 @@ def execute(plan, want_logs=False):
     core.import_target()
     import numpy as np
 
+    if "walk" in plan:
+        return _execute_walk(plan, want_logs)
     log = core.EventLog(keep=want_logs)
     stats = core.Stats()
     fns = ops.public_functions()
@@ -360,7 +362,7 @@ def execute(plan, want_logs=False):
     actors = plan["actors"]
     threaded = len(actors) > 1
     state = {"pos": {a: -1 for a in actors}, "evt": {a: 0 for a in actors}, "aborted": {a: False for a in actors},
-             "inflight": {}, "skip_i3": set(), "reexec_left": 8, "prev_fn": None, "touched": set(), "switch_points": set(), "abort_points": set()}
+             "inflight": {}, "skip_i3": set(), "reexec_left": 8, "outcomes": [], "prev_fn": None, "touched": set(), "switch_points": set(), "abort_points": set()}
     abort_at = {}
     for ab in plan["aborts"]:
         abort_at.setdefault((ab["actor"], ab["pos"]), ab["event"])
@@ -474,6 +476,7 @@ def execute(plan, want_logs=False):
         stats.see("fns", fn)
         stats.see("templates", (fn, _argstr(opd)))
         log.add("op", me, j, fn, od, len(warns))
+        state["outcomes"].append((me, state["pos"][me], fn, od))
         state["prev_fn"] = fn
 
     def actor_body(b, me):
@@ -515,7 +518,190 @@ def execute(plan, want_logs=False):
     if threaded:
         stats.see("interleavings", log.digest())
     return {"violations": violations, "stats": stats.dump(), "log_digest": log.digest(), "n_events": log.n,
+            "log_events": log.events if want_logs else None,
+            # schedule-independent summary: which call returned what (used where the line-level schedule itself
+            # legitimately depends on PYTHONHASHSEED through mir_eval's own set iteration)
+            "aux_digest": core.digest(sorted(state["outcomes"]))}
+
+
+# --------------------------------------------------------------------------------------
+# systematic walks: every abort point of one call, every single-switch interleaving of two calls
+# --------------------------------------------------------------------------------------
+WALK_CAP = 250
+WALK_OPS = {"quick": 320, "thorough": 8000}
+
+
+def gen_walk_plan(rng, tier, i):
+    base = gen_plan(rng, tier, i + 10 ** 6)
+    light = [j for j, o in enumerate(base["ops"]) if o["fn"] not in ops.HEAVY]
+    if len(light) < 2:
+        light = list(range(len(base["ops"])))
+    a = rng.choice(light)
+    # prefer a partner that shares a pool object with A
+    ra = set((r.b, r.f) for r in refs_of(base["ops"][a]))
+    sharing = [j for j in light if j != a and ra & set((r.b, r.f) for r in refs_of(base["ops"][j]))]
+    same_mod = [j for j in light if j != a and base["ops"][j]["fn"].split(".")[0] == base["ops"][a]["fn"].split(".")[0]]
+    b = rng.choice(sharing or same_mod or [j for j in light if j != a] or [a])
+    return {"prop": PROP, "walk": {"kind": ["abort", "interleave"][i % 2], "a": a, "b": b}, "specs": base["specs"], "ops": base["ops"],
+            "poison": base["poison"], "ctx": base["ctx"], "groups": base["groups"], "shape": "walk", "actors": {"a0": [a], "a1": [b]},
+            "aborts": [], "switch_p": 0.0, "boundary_p": 0.0, "sched_seed": 0}
+
+
+def _count_events(plan, j, fns, prefix):
+    n = [0]
+
+    def decide(me, func, line):
+        n[0] += 1
+        return None
+
+    pool = build_pool(_specs_for(plan, [j]))
+    baton = seams.Baton(prefix, decide, max_events=10 ** 7)
+    baton.run({"a0": lambda b, me: call_op(plan["ops"][j], pool, fns)}, "a0", lambda alive: alive[0])
+    return n[0]
+
+
+def _specs_for(plan, js):
+    need = set(r.b for j in js for r in refs_of(plan["ops"][j]))
+    return {k: v for k, v in plan["specs"].items() if k in need}
+
+
+def _execute_walk(plan, want_logs):
+    log = core.EventLog(keep=want_logs)
+    stats = core.Stats()
+    fns = ops.public_functions()
+    violations, seen_v = [], set()
+    w = plan["walk"]
+    a, b = w["a"], w["b"]
+    opa, opb = plan["ops"][a], plan["ops"][b]
+    prefix = core.src_root() + os.sep + "mir_eval" + os.sep
+    pB = other_poison(plan["poison"])
+
+    def report(cls, site, detail, k):
+        if (cls, site) not in seen_v:
+            seen_v.add((cls, site))
+            v = core.violation(cls, site, detail)
+            v["walk_k"] = k
+            violations.append(v)
+
+    solo = {}
+    for j in (a, b):
+        st, res = core.fork_call(_solo, (plan, j, pB), timeout=60.0)
+        if st != "ok":
+            raise RuntimeError("solo reference failed: %s %s" % (st, res))
+        solo[j] = res
+    seams.set_poison(plan["poison"])
+    seams.WARN.install()
+    specs = _specs_for(plan, [a, b])
+    E = _count_events(plan, a, fns, prefix)
+    ks = list(range(1, min(E, WALK_CAP) + 1)) if w.get("only_k") is None else [w["only_k"]]
+    ls0 = lib_state()
+    for k in ks:
+        pool = build_pool(specs)
+        pd0 = pool_digests(pool)
+        outs = {}
+        point = [None]
+
+        def decide(me, func, line, k=k):
+            if me != "a0":
+                return None
+            cnt[0] += 1
+            if cnt[0] == k:
+                point[0] = (func, line)
+                return "abort" if w["kind"] == "abort" else "a1"
+            return None
+
+        cnt = [0]
+        baton = seams.Baton(prefix, decide, max_events=10 ** 7)
+        if w["kind"] == "abort":
+            baton.run({"a0": lambda bt, me: outs.__setitem__("a", call_op(opa, pool, fns))}, "a0", lambda alive: alive[0])
+            stats.inc("walk.abort_points")
+            stats.see("abort_points", point[0])
+        else:
+            baton.run({"a0": lambda bt, me: outs.__setitem__("a", call_op(opa, pool, fns)),
+                       "a1": lambda bt, me: outs.__setitem__("b", call_op(opb, pool, fns))}, "a0", lambda alive: alive[0])
+            stats.inc("walk.interleavings")
+            stats.see("switch_points", point[0])
+        if baton.errors:
+            raise RuntimeError("walk actor crashed: %r" % (baton.errors,))
+        where = "%s line %s" % (point[0] or ("?", "?"))
+        what = ("aborted at its line event %d (%s)" % (k, where)) if w["kind"] == "abort" else (
+            "pre-empted at its line event %d (%s) while %s(%s) ran to completion on another thread" % (k, where, opb["fn"], _argstr(opb)))
+        # I1: the caller's objects
+        pd = pool_digests(pool)
+        for key in sorted(pd0):
+            if pd[key] != pd0[key]:
+                typ = plan["specs"][key[0]]["type"]
+                owner = opa["fn"] if R(*key) in refs_of(opa) else opb["fn"]
+                report("ARG_MUTATED", "%s:%s.%s" % (owner, typ, key[1]), "%s(%s) %s: caller's %s.%s changed (now %s)" % (
+                    opa["fn"], _argstr(opa), what, key[0], key[1], core.brief(pool[key[0]][key[1]])), k)
+        # I3 for the overlapped calls
+        if w["kind"] == "interleave":
+            for tag, j in (("a", a), ("b", b)):
+                if tag in outs and outcome_digest(outs[tag]) != solo[j][0]:
+                    report("CONCURRENT_DIFFERS", plan["ops"][j]["fn"], "%s(%s) %s: %s(%s) -> %s %s ; alone -> %s %s" % (
+                        opa["fn"], _argstr(opa), what, plan["ops"][j]["fn"], _argstr(plan["ops"][j]), outcome_digest(outs[tag]),
+                        core.brief(outs[tag][1]), solo[j][0], solo[j][2]), k)
+        # what the next calls inherit: B, then A, complete, on fresh arguments
+        fresh = build_pool(specs)
+        for j in (b, a):
+            o = call_op(plan["ops"][j], fresh, fns)
+            if outcome_digest(o) != solo[j][0]:
+                report("HISTORY_DEPENDENT", plan["ops"][j]["fn"], "after %s(%s) was %s, a fresh %s(%s) -> %s %s ; in a pristine process -> %s %s" % (
+                    opa["fn"], _argstr(opa), what, plan["ops"][j]["fn"], _argstr(plan["ops"][j]), outcome_digest(o), core.brief(o[1]),
+                    solo[j][0], solo[j][2]), k)
+            stats.inc("ops")
+        seams.WARN.take()
+        ls = lib_state()
+        if ls != ls0:
+            stats.inc("probe.library_state_changed")
+            for key in ls:
+                if ls.get(key) != ls0.get(key):
+                    stats.see("lib_state_changes", key)
+            ls0 = ls
+        log.add("walk", w["kind"], k, point[0], [outcome_digest(outs[t]) for t in sorted(outs)])
+        stats.inc("i3_checked", 2)
+    stats.inc("walk.ops")
+    stats.see("fns", opa["fn"])
+    stats.see("walk_fns", (w["kind"], opa["fn"]))
+    for v in violations:
+        concrete = copy.deepcopy(plan)
+        concrete["walk"] = dict(w, only_k=v.pop("walk_k"))
+        v["plan"] = concrete
+    return {"violations": violations, "stats": stats.dump(), "log_digest": log.digest(), "n_events": log.n,
             "log_events": log.events if want_logs else None}
+
+
+class _WalkEngine(object):
+    PROP = PROP
+    RUN_TIMEOUT = 300.0
+
+    @staticmethod
+    def gen_plan(rng, tier, i):
+        return gen_walk_plan(rng, tier, i)
+
+    @staticmethod
+    def execute(plan, want_logs=False):
+        return execute(plan, want_logs)
+
+    @staticmethod
+    def describe(plan, res):
+        w = plan["walk"]
+        return {"walk": w["kind"], "a": "%s(%s)" % (plan["ops"][w["a"]]["fn"], _argstr(plan["ops"][w["a"]])[:100]),
+                "b": "%s(%s)" % (plan["ops"][w["b"]]["fn"], _argstr(plan["ops"][w["b"]])[:100]), "log_digest": res["log_digest"]}
+
+
+def extra_phase(tier, seed, agg):
+    n = int(os.environ.get("VERIF_WALK_OPS", "0")) or WALK_OPS[tier]
+    sub = core.run_campaign(_WalkEngine, tier, seed + 104729, n)
+    agg["stats"].merge(sub["stats"])
+    agg["harness"].extend(sub["harness"])
+    for rec in sub["violations"]:
+        for v in rec["violations"]:
+            p = v.pop("plan")
+            p["run"] = rec["run"]
+            p["run_seed"] = rec["plan"].get("run_seed")
+            agg["violations"].append({"run": rec["run"], "plan": p, "violations": [v], "log": rec["log"]})
+    return {"walk_ops": n, "walk_events": sum(r["events"] for r in sub["runs"]), "walk_samples": sub["samples"][:2]}
 
 
 def _argstr(opd):
@@ -545,6 +731,9 @@ def _alias_probe(value, stats):
 # minimisation
 # --------------------------------------------------------------------------------------
 def size(plan):
+    if "walk" in plan:
+        return 5 + (0 if plan["walk"].get("only_k") is not None else 1000) + len(plan["specs"]) + sum(
+            (sp.get("n") if sp.get("n") is not None else 50) for sp in plan["specs"].values()) / 10.0
     s = sum(len(v) for v in plan["actors"].values()) * 10
     s += 25 * (len(plan["actors"]) - 1) + 8 * len(plan["aborts"])
     s += sum((sp.get("n") if sp.get("n") is not None else 50) for sp in plan["specs"].values()) / 10.0
@@ -555,6 +744,30 @@ def size(plan):
 
 def shrink(plan, test, budget):
     plan = copy.deepcopy(plan)
+    if "walk" in plan:
+        w = plan["walk"]
+        used = sorted(set([w["a"], w["b"]]))
+        usedb = set(r.b for j in used for r in refs_of(plan["ops"][j]))
+        cand = copy.deepcopy(plan)
+        cand["specs"] = {k: v for k, v in plan["specs"].items() if k in usedb}
+        if len(cand["specs"]) < len(plan["specs"]) and test(cand):
+            plan = cand
+        for name in sorted(plan["specs"]):
+            for n in (1, 2, 3, 5, 8):
+                cur = plan["specs"][name].get("n")
+                if cur is not None and cur <= n:
+                    break
+                cand = copy.deepcopy(plan)
+                cand["specs"][name]["n"] = n
+                # the event index of the failing point moves when the inputs shrink: search all points again
+                cand["walk"] = dict(w, only_k=None)
+                if test(cand):
+                    st, res = core.fork_call(execute, (cand, False))
+                    if st == "ok" and res["violations"] and "plan" in res["violations"][0]:
+                        plan = res["violations"][0]["plan"]
+                        plan["run"], plan["run_seed"] = cand.get("run"), cand.get("run_seed")
+                        break
+        return plan
     # 1. threads -> one actor (sequential concatenation)
     if len(plan["actors"]) > 1:
         cand = copy.deepcopy(plan)
@@ -635,6 +848,8 @@ def shrink(plan, test, budget):
 # reporting
 # --------------------------------------------------------------------------------------
 def describe(plan, res):
+    if "walk" in plan:
+        return _WalkEngine.describe(plan, res)
     return {
         "shape": plan["shape"], "groups": plan["groups"], "poison": plan["poison"], "switch_p": plan["switch_p"],
         "pool": {k: (v["type"], v.get("role")) for k, v in plan["specs"].items()},
@@ -645,6 +860,17 @@ def describe(plan, res):
 
 
 def coverage(agg, tier, n_runs, wall, extra):
+    st = agg["stats"]
+    c = st.count
+    pub = sorted(ops.public_functions())
+    executed = st.distinct.get("fns", set())
+    cov = _coverage(agg, tier, n_runs, wall, extra)
+    if extra:
+        cov.update(extra)
+    return cov
+
+
+def _coverage(agg, tier, n_runs, wall, extra):
     st = agg["stats"]
     c = st.count
     pub = sorted(ops.public_functions())
@@ -673,6 +899,10 @@ def coverage(agg, tier, n_runs, wall, extra):
         "distinct_preemption_points": len(st.distinct.get("switch_points", ())),
         "distinct_abort_points": len(st.distinct.get("abort_points", ())),
         "distinct_alloc_sites_poisoned": len(st.distinct.get("alloc_sites", ())),
+        "systematic_walks": dict({k.split(".", 1)[1]: v for k, v in sorted(c.items()) if k.startswith("walk.")},
+                                 distinct_walked_functions=len(st.distinct.get("walk_fns", ())),
+                                 note="per walked call: EVERY line event (capped at %d) is used once as the abort point / as the point where "
+                                      "another call runs to completion on a second thread; afterwards both calls run again on fresh arguments" % WALK_CAP),
         "distinct_interleavings": len(st.distinct.get("interleavings", ())),
         "distinct_interleavings_measure": "distinct event-log digests of threaded runs (every switch decision (actor, function, line)->actor is logged)",
         "components": {
